@@ -16,8 +16,14 @@ open Relation MG Fscm
 /-- every value is the unstarred value of its own variable -/
 def Unst (ev : Event) : Prop := ∀ p ∈ ev, p.2 = ⟨p.1.name, false⟩
 
-def FragSt (B : List Name) : St → Prop
-  | .run _ ev => Unst ev ∧ ∀ b ∈ B, ∃ k ∈ ev.keys, k.name = b
+/-- every value is a value of its own variable, starred as `s` says (a function of the variable's NAME: two keys over one
+variable carry the same value) -/
+def ValBy (s : Name → Bool) (ev : Event) : Prop := ∀ p ∈ ev, p.2 = ⟨p.1.name, s p.1.name⟩
+
+theorem unst_iff_valBy (ev : Event) : Unst ev ↔ ValBy (fun _ => false) ev := Iff.rfl
+
+def FragSt (s : Name → Bool) (B : List Name) : St → Prop
+  | .run _ ev => ValBy s ev ∧ ∀ b ∈ B, ∃ k ∈ ev.keys, k.name = b
   | .stop _ => False
 
 theorem mem_keys_erase (ev : Event) (e x : Var) : x ∈ (ev.erase e).keys ↔ x ∈ ev.keys ∧ x ≠ e := by
@@ -26,7 +32,7 @@ theorem mem_keys_erase (ev : Event) (e x : Var) : x ∈ (ev.erase e).keys ↔ x 
   · rintro ⟨v, hv, hne⟩; exact ⟨⟨v, hv⟩, hne⟩
   · rintro ⟨⟨v, hv⟩, hne⟩; exact ⟨v, hv, hne⟩
 
-theorem isInconsistent_false_of_unst (ev : Event) (h : Unst ev) (a b : Var) (hab : a.name = b.name) :
+theorem isInconsistent_false_of_unst {s : Name → Bool} (ev : Event) (h : ValBy s ev) (a b : Var) (hab : a.name = b.name) :
     isInconsistent ev a b = false := by
   unfold isInconsistent
   cases ha : ev.get? a with
@@ -41,7 +47,8 @@ theorem isInconsistent_false_of_unst (ev : Event) (h : Unst ev) (a b : Var) (hab
       simp only [ne_eq, decide_eq_false_iff_not, not_not]
       rw [h1, h2, hab]
 
-theorem fragSt_mergeStep (B : List Name) (st : St) (a b : Var) (hab : a ≠ b) (h : FragSt B st) : FragSt B (mergeStep st a b) := by
+theorem fragSt_mergeStep (s : Name → Bool) (B : List Name) (st : St) (a b : Var) (hab : a ≠ b) (h : FragSt s B st) :
+    FragSt s B (mergeStep st a b) := by
   unfold mergeStep
   cases st with
   | stop cf => exact h
@@ -55,7 +62,7 @@ theorem fragSt_mergeStep (B : List Name) (st : St) (a b : Var) (hab : a ≠ b) (
       simp only [Bool.false_eq_true, ↓reduceIte]
       have hr1 : (mergePw cf a b).2.1 = (mergeOrder a b).1 := by unfold mergePw; rfl
       have hr2 : (mergePw cf a b).2.2 = (mergeOrder a b).2 := by unfold mergePw; rfl
-      show Unst _ ∧ _
+      show ValBy s _ ∧ _
       rw [hr1, hr2]
       have hmn := mergeOrder_names a b hname
       unfold updateEvent
@@ -63,7 +70,7 @@ theorem fragSt_mergeStep (B : List Name) (st : St) (a b : Var) (hab : a ≠ b) (
       | none => exact ⟨hun, hB⟩
       | some v =>
         simp only
-        have hv : v = ⟨(mergeOrder a b).2.name, false⟩ := hun _ (Event.get?_mem he)
+        have hv : v = ⟨(mergeOrder a b).2.name, s (mergeOrder a b).2.name⟩ := hun _ (Event.get?_mem he)
         constructor
         · intro p hp
           rw [Event.mem_erase, Event.mem_set] at hp
@@ -88,14 +95,14 @@ end Y0.Cf
 namespace Y0.Cf
 open Relation MG Fscm
 
-theorem fragSt_runPairs (B : List Name) (ps : List (Var × Var)) (hne : ∀ p ∈ ps, p.1 ≠ p.2) (st : St)
-    (h : FragSt B st) : FragSt B (runPairs st ps) := by
+theorem fragSt_runPairs (s : Name → Bool) (B : List Name) (ps : List (Var × Var)) (hne : ∀ p ∈ ps, p.1 ≠ p.2) (st : St)
+    (h : FragSt s B st) : FragSt s B (runPairs st ps) := by
   induction ps generalizing st with
   | nil => exact h
   | cons p ps ih =>
     unfold runPairs
     simp only [List.foldl_cons]
-    exact ih (fun q hq => hne q (by simp [hq])) _ (fragSt_mergeStep B st p.1 p.2 (hne p (by simp)) h)
+    exact ih (fun q hq => hne q (by simp [hq])) _ (fragSt_mergeStep s B st p.1 p.2 (hne p (by simp)) h)
 
 /-! ## bidirected edges of `G` are represented -/
 
@@ -250,8 +257,18 @@ structure Frag (G : MG Name) (w : World) (ev : Event) : Prop where
   keysIn : KeysIn w ev
   wUnst : ∀ i ∈ w, i.star = false
 
+/-- **single-world events**, any polarity: a well-formed event over variables of `G`, all keys in ONE world `w` (any consistent
+subscript set, starred subscripts allowed), the value of the key over `V` is `V`'s value starred as `s V` says -/
+structure Frag2 (G : MG Name) (w : World) (s : Name → Bool) (ev : Event) : Prop where
+  good : GoodEv G ev
+  vals : ValBy s ev
+  keysIn : KeysIn w ev
+
+theorem Frag.to2 {G : MG Name} {w : World} {ev : Event} (h : Frag G w ev) : Frag2 G w (fun _ => false) ev :=
+  ⟨h.good, h.unst, h.keysIn⟩
+
 /-- what the semantic argument uses about `make_counterfactual_graph(G, ev) = (g, nev)` for an event of the fragment -/
-structure SWFacts (G : MG Name) (w : World) (ev : Event) (g : MG Var) (nev : Event) : Prop where
+structure SWFacts (G : MG Name) (w : World) (s : Name → Bool) (ev : Event) (g : MG Var) (nev : Event) : Prop where
   wf : g.WF
   nodeOK : ∀ x ∈ g.nodes, KeyOK G x
   shape : ∀ x ∈ g.nodes, x = Var.plain x.name ∨ x = atWorld x.name w
@@ -260,16 +277,33 @@ structure SWFacts (G : MG Name) (w : World) (ev : Event) (g : MG Var) (nev : Eve
   notW : ∀ x ∈ g.nodes, isNotSelfIntervened x = true → x.name ∉ w.map (·.name)
   rep : ∀ n ∈ g.nodes, isNotSelfIntervened n = true → ∀ m, (m, n.name) ∈ G.di → ∃ x, (x, n) ∈ g.di ∧ x.name = m
   biRep : BiRep G g
-  nevUnst : Unst nev
+  nevVals : ValBy s nev
   nevOK : EvOK nev
   keysNodes : ∀ k ∈ nev.keys, k ∈ g.nodes
   keyNames : ∀ b, b ∈ nev.keys.map (·.name) ↔ b ∈ ev.keys.map (·.name)
   proj : EdgeProj G g
 
+/-- what the treatment of ONE district (line 6) uses about a counterfactual graph `g` and the relabelled event `nev` — single-world
+or not: nodes in canonical form, at most one non-self-intervened node per variable, every parent (in `G`) of a non-self-intervened
+node represented by a parent node, bidirected edges of `G` represented, and no self-intervened node named like a
+non-self-intervened one -/
+structure DFacts (G : MG Name) (s : Name → Bool) (g : MG Var) (nev : Event) : Prop where
+  wf : g.WF
+  nodeOK : ∀ x ∈ g.nodes, KeyOK G x
+  inj : ∀ x ∈ g.nodes, ∀ y ∈ g.nodes, isNotSelfIntervened x = true → isNotSelfIntervened y = true → x.name = y.name → x = y
+  rep : ∀ n ∈ g.nodes, isNotSelfIntervened n = true → ∀ m, (m, n.name) ∈ G.di → ∃ x, (x, n) ∈ g.di ∧ x.name = m
+  biRep : BiRep G g
+  sep : ∀ v ∈ g.nodes, isNotSelfIntervened v = false → ∀ n ∈ g.nodes, isNotSelfIntervened n = true → v.name ≠ n.name
+  nevVals : ValBy s nev
+  nevOK : EvOK nev
+  keysNodes : ∀ k ∈ nev.keys, k ∈ g.nodes
+  proj : EdgeProj G g
+
 theorem frag_facts {ordf : List World → List World} (hord : PermOrder ordf) {G : MG Name} (hG : G.WF)
-    (hdl : ∀ e ∈ G.di, e.1 ≠ e.2) (hbl : ∀ e ∈ G.bi, e.1 ≠ e.2) {w : World} {ev : Event} (hf : Frag G w ev) (hne : ev ≠ [])
+    (hdl : ∀ e ∈ G.di, e.1 ≠ e.2) (hbl : ∀ e ∈ G.bi, e.1 ≠ e.2) {w : World} {s : Name → Bool} {ev : Event}
+    (hf : Frag2 G w s ev) (hne : ev ≠ [])
     {g : MG Var} {o : Option Event} (h : makeCounterfactualGraph ordf G ev = .ok (g, o)) :
-    ∃ nev, o = some nev ∧ SWFacts G w ev g nev := by
+    ∃ nev, o = some nev ∧ SWFacts G w s ev g nev := by
   have hev := hf.good.ok
   have hk := hf.good.keys
   have hkw := hf.keysIn
@@ -279,11 +313,11 @@ theorem frag_facts {ordf : List World → List World} (hord : PermOrder ordf) {G
     cases ht : G.topologicalSort with
     | ok topo => exact ⟨topo, rfl⟩
     | error e => rw [(cg_error_iff_cyclic ordf G ev e).2 ht] at h; cases h
-  have hfrag : FragSt (ev.keys.map (·.name)) (loopResult ordf G ev topo) := by
+  have hfrag : FragSt s (ev.keys.map (·.name)) (loopResult ordf G ev topo) := by
     unfold loopResult
     rw [mergeLoop_eq]
-    apply fragSt_runPairs _ _ (allPairs_ne _ hgood.1 hgood.2 topo)
-    exact ⟨hf.unst, fun b hb => by
+    apply fragSt_runPairs s _ _ (allPairs_ne _ hgood.1 hgood.2 topo)
+    exact ⟨hf.vals, fun b hb => by
       obtain ⟨k, hk', rfl⟩ := List.mem_map.1 hb
       exact ⟨k, hk', rfl⟩⟩
   cases o with
